@@ -4,7 +4,11 @@
      several candidates can accumulate): these are exactly the degrees of freedom a conforming MPI has.
    - seeded delays before sends and before entering collectives.
    - optional per-rank trace (VERIF_SCHED_TRACE=<prefix>): one line per communication call.
-   Environment: VERIF_SCHED_SEED (default 0 = no perturbation at all, pass-through), VERIF_SCHED_MAXDELAY_US (default 300). */
+   - late receivers (VERIF_SCHED_LATE_US > 0): a seeded longer delay before a receive is posted, so that messages above
+     the eager limit are still being read from the sender's buffer while the sender has moved on (a send buffer that is
+     reused before the send was completed then delivers mixed data - legal MPI behaviour the suite's small messages hide).
+   Environment: VERIF_SCHED_SEED (default 0 = no perturbation at all, pass-through), VERIF_SCHED_MAXDELAY_US (default 300),
+   VERIF_SCHED_LATE_US (default 0). */
 #define _GNU_SOURCE
 #include <mpi.h>
 #include <stdio.h>
@@ -13,13 +17,14 @@
 #include <unistd.h>
 
 static unsigned long long rng_state = 0; static int sched_on = -1; static int maxdelay = 300; static FILE* trace = NULL;
-static int wrank = -1;
+static int wrank = -1; static int late_us = 0;
 static unsigned long long rnd(void) { rng_state ^= rng_state << 13; rng_state ^= rng_state >> 7; rng_state ^= rng_state << 17; return rng_state; }
 static void init_sched(void) {
     if (sched_on >= 0) return;
     const char* s = getenv("VERIF_SCHED_SEED"); const char* d = getenv("VERIF_SCHED_MAXDELAY_US"); const char* t = getenv("VERIF_SCHED_TRACE");
     long seed = s ? atol(s) : 0; sched_on = seed != 0;
     if (d) maxdelay = atoi(d);
+    { const char* l = getenv("VERIF_SCHED_LATE_US"); if (l) late_us = atoi(l); }
     PMPI_Comm_rank(MPI_COMM_WORLD, &wrank);
     rng_state = 0x9E3779B97F4A7C15ULL ^ ((unsigned long long)seed * 1000003ULL + (unsigned long long)(wrank + 1) * 7919ULL);
     for (int i = 0; i < 8; i++) rnd();
@@ -63,7 +68,9 @@ int MPI_Send(const void* buf, int count, MPI_Datatype dt, int dest, int tag, MPI
     init_sched(); maybe_delay(); tr("send", dest, tag, comm, count); return PMPI_Send(buf, count, dt, dest, tag, comm);
 }
 int MPI_Irecv(void* buf, int count, MPI_Datatype dt, int source, int tag, MPI_Comm comm, MPI_Request* req) {
-    init_sched(); tr("irecv", source, tag, comm, count); return PMPI_Irecv(buf, count, dt, source, tag, comm, req);
+    init_sched();
+    if (sched_on && late_us > 0 && (rnd() % 3) == 0) usleep((useconds_t)(rnd() % (unsigned)late_us));
+    tr("irecv", source, tag, comm, count); return PMPI_Irecv(buf, count, dt, source, tag, comm, req);
 }
 int MPI_Allreduce(const void* s, void* r, int count, MPI_Datatype dt, MPI_Op op, MPI_Comm comm) {
     init_sched(); maybe_delay(); tr("allreduce", -1, -1, comm, count); return PMPI_Allreduce(s, r, count, dt, op, comm);
